@@ -126,6 +126,13 @@ def cases(tier, inst):
             for how in ("from_query", "from_var", "from_letvar", "let_query", "from_query_cond"):
                 for constrained in (False, True):
                     yield ("exprdom", outer, inner, how, constrained)
+    # (j) the user's collection CHANGES IN PLACE between two declarations over it: a variable declared later ranges over
+    #     the collection as it is then (a variable is evaluated first, then members are appended / removed / replaced)
+    for cls in ("Base", "Sub", "Hand"):
+        for change in ("append", "remove", "replace", "clear_extend"):
+            for first in ("from", "let", "kw"):
+                for second in ("from", "let", "kw", "nested"):
+                    yield ("mutated", cls, change, first, second)
     # (e) one From object shared by two declarations
     for c1, c2 in (("Base", "Base"), ("Base", "Sub"), ("Sub", "Base"), ("Hand", "Base"), ("Base", "USub")):
         for join in ("none", "k"):
@@ -243,6 +250,56 @@ def run_freshhier(case, inst):
     exp = [o for o in dom if isinstance(o, T) and all(getattr(o, f) == v for f, v in given.items())]
     lab_ = lambda o: f"{type(o).__name__}(" + ", ".join(f"{f}={getattr(o, f)}" for f in tf if hasattr(o, f)) + ")"   # noqa: E731
     return (got if is_exc(got) else [(lab_(o), dom.index(o)) for o in got]), [(lab_(o), dom.index(o)) for o in exp], len(dom)
+
+
+def run_mutated(case, inst):
+    _, clsname, change, first, second = case
+    from entity_query_language import an, entity, let, symbolic_mode, From
+    world = build_world(WSPEC, inst)
+    d = list(world["DM"])
+    T = W.CLASSES[clsname]
+
+    def declare(how):
+        with symbolic_mode():
+            if how == "from":
+                return an(entity(T(From(d))))
+            if how == "let":
+                return an(entity(let(T, d)))
+            if how == "kw":
+                return an(entity(T(From(d), k=inst.v(1))))
+            h = W.Holder(From(world["DH"]), inner=T(From(d)))
+            return an(entity(h))
+
+    def expect(how):
+        members = [o for o in d if isinstance(o, T)]
+        if how == "kw":
+            return [o for o in members if o.k == inst.v(1)]
+        if how == "nested":
+            return [h for h in world["DH"] if isinstance(h, W.Holder) and any(h.inner is o for o in members)]
+        return members
+
+    lab_ = lambda r: r if is_exc(r) else [repr(Q.norm(o)) for o in r]      # noqa: E731
+    try:
+        q1 = declare(first)
+        got1, exp1 = list(q1.evaluate()), expect(first)
+        extra = T(k=inst.v(1), tag="new") if clsname != "Hand" else T(inst.v(1), tag="new")
+        members = [o for o in d if isinstance(o, T)]
+        if change == "append":
+            d.append(extra)
+        elif change == "remove":
+            d.remove(members[0])
+        elif change == "replace":
+            d[d.index(members[0])] = extra
+        else:
+            kept = d[2:]
+            d.clear()
+            d.extend(kept + [extra])
+        q2 = declare(second)
+        got2, exp2 = list(q2.evaluate()), expect(second)
+    except Exception as e:
+        return exc_obs(e), None, None, None
+    return lab_(got1), lab_(exp1), sorted(lab_(got2)) if second == "nested" else lab_(got2), \
+        sorted(lab_(exp2)) if second == "nested" else lab_(exp2)
 
 
 def run_exprdom(case, inst):
@@ -415,6 +472,19 @@ def lab(kind, res):
 
 
 def run_case(case, inst):
+    if case[0] == "mutated":
+        got1, exp1, got2, exp2 = run_isolated(lambda: run_mutated(case, inst))
+        res = {"ok": not is_exc(got1) and got1 == exp1 and got2 == exp2, "nontrivial": bool(exp2), "transitions": 2,
+               "tags": ["family=mutated", f"change={case[2]}"], "outcome": f"mutated:{len(exp2) if exp2 else 0}"}
+        if not res["ok"]:
+            if is_exc(got1):
+                res.update(sig=f"mutated:exc:{got1[1]}", obs=got1, exp="no exception")
+            elif got1 != exp1:
+                res.update(sig="mutated:first-declaration", obs=got1, exp=exp1)
+            else:
+                k = "missing" if set(exp2) - set(got2) else ("extra" if set(got2) - set(exp2) else "order-or-count")
+                res.update(sig=f"mutated:later-declaration:{k}/{case[2]}/{case[4]}", obs=got2, exp=exp2)
+        return res
     if case[0] == "exprdom":
         got, again, exp, n = run_isolated(lambda: run_exprdom(case, inst))
         res = {"ok": got == exp and again == exp, "nontrivial": 0 < len(exp) < n, "transitions": 2,
@@ -461,6 +531,16 @@ def run_case(case, inst):
 
 
 def describe(case, inst):
+    if case[0] == "mutated":
+        _, clsname, change, first, second = case
+        forms = {"from": f"an(entity({clsname}(From(d))))", "let": f"an(entity(let({clsname}, d)))",
+                 "kw": f"an(entity({clsname}(From(d), k={inst.v(1)})))",
+                 "nested": f"an(entity(Holder(From(DH), inner={clsname}(From(d)))))"}
+        ch = {"append": "d.append(new)", "remove": f"d.remove(<first {clsname} in d>)", "replace": f"d[<index of the first {clsname}>] = new",
+              "clear_extend": "kept = d[2:]; d.clear(); d.extend(kept + [new])"}[change]
+        return (Q.up_world(WSPEC, inst) + f"\nd = list(DM); q1 = {forms[first]}; list(q1.evaluate())\n"
+                f"new = {clsname}(k={inst.v(1)}); {ch}\nq2 = {forms[second]}   # a NEW declaration over the same list object\n"
+                "result = list(q2.evaluate())   # expected: the members of d as it is now")
     if case[0] == "exprdom":
         _, outer, inner, how, constrained = case
         kw = f", k={inst.v(1)}" if constrained else ""
